@@ -267,6 +267,47 @@ fn run_case_inner(op: &str, inp: &Value) -> String {
             }
             format!("(maxl [{}])", parts.join("; "))
         }
+        // membership verdicts at (2^k s, 2^k z) vs the model there and vs the verdicts at (s, z)
+        "feas_cov" => {
+            let cone = inp["cone"].as_str().unwrap();
+            let (s, z) = (fv(&inp["s"]), fv(&inp["z"]));
+            let lam = (2.0f64).powi(inp["k"].as_i64().unwrap() as i32);
+            let s2: Vec<f64> = s.iter().map(|x| x * lam).collect();
+            let z2: Vec<f64> = z.iter().map(|x| x * lam).collect();
+            match cone {
+                "exp" => {
+                    let k = ExponentialCone::<f64>::new();
+                    format!("(c_exp_feas_cov {} {} {} {} {} {})", v3(&s2), v3(&z2), cb(k.verif_is_primal_feasible(&s2)), cb(k.verif_is_dual_feasible(&z2)),
+                            cb(k.verif_is_primal_feasible(&s)), cb(k.verif_is_dual_feasible(&z)))
+                }
+                "pow" => {
+                    let al = f(&inp["alpha"]);
+                    let k = PowerCone::<f64>::new(al);
+                    format!("(c_pow_feas_cov {} {} {} {} {} {} {})", cfl(al), v3(&s2), v3(&z2), cb(k.verif_is_primal_feasible(&s2)), cb(k.verif_is_dual_feasible(&z2)),
+                            cb(k.verif_is_primal_feasible(&s)), cb(k.verif_is_dual_feasible(&z)))
+                }
+                _ => {
+                    let al = fv(&inp["alphas"]);
+                    let d1 = al.len();
+                    let k = GenPowerCone::<f64>::new(al.clone(), s.len() - d1);
+                    format!("(c_gp_feas_cov {} {} {} {} {} {} {} {} {})", cfllist(&al), cfllist(&s2[..d1]), cfllist(&s2[d1..]), cfllist(&z2[..d1]), cfllist(&z2[d1..]),
+                            cb(k.verif_is_primal_feasible(&s2)), cb(k.verif_is_dual_feasible(&z2)), cb(k.verif_is_primal_feasible(&s)), cb(k.verif_is_dual_feasible(&z)))
+                }
+            }
+        }
+        // cone-level step_length from a (tiny-scale) interior pair along given directions
+        "step_full" => {
+            let cone = inp["cone"].as_str().unwrap();
+            let (s, z, ds, dz) = (fv(&inp["s"]), fv(&inp["z"]), fv(&inp["ds"]), fv(&inp["dz"]));
+            let amax = f(&inp["amax"]);
+            let st = clarabel::verif_hooks::c1315::CoreSettings::<f64>::default();
+            let (az, as_) = match cone {
+                "exp" => ExponentialCone::<f64>::new().step_length(&dz, &ds, &z, &s, &st, amax),
+                "pow" => PowerCone::<f64>::new(f(&inp["alpha"])).step_length(&dz, &ds, &z, &s, &st, amax),
+                _ => { let al = fv(&inp["alphas"]); let d1 = al.len(); GenPowerCone::<f64>::new(al, s.len() - d1).step_length(&dz, &ds, &z, &s, &st, amax) }
+            };
+            format!("(c_step_full {} {} {})", cfl(amax), cfl(az), cfl(as_))
+        }
         "exp_unit" => {
             let k = ExponentialCone::<f64>::new();
             let (mut z, mut s) = ([0.0; 3], [0.0; 3]);
@@ -542,6 +583,33 @@ fn generate(sink: &mut CaseSink, seed: u64, thorough: bool) -> BTreeMap<String, 
         let al = g.alpha();
         let (s, z) = (g.pow_primal(al, ms), g.pow_dual(al, mz));
         emit(sink, &mut g, "pow_feas", json!({"alpha": al, "s": s, "z": z, "clear": !near}), "feas");
+    }
+    // --- scale covariance of the membership tests and full steps at tiny scale
+    for (i, k) in [10i64, -10, 20, -20, 27, -27, 30, -30, 40, -40, 60, -60].iter().enumerate() {
+        for rep in 0..(3 * scale) {
+            let cone = ["exp", "pow", "gp"][(i + rep) % 3];
+            let al = g.alpha();
+            let (d1, d2) = (2 + g.rng.below(3), 1 + g.rng.below(2));
+            let als = g.gp_alpha(d1);
+            let m = match rep % 3 { 0 => g.logu(0.05, 0.9), 1 => g.logu(1e-8, 1e-5), _ => -g.logu(1e-8, 0.5) };
+            let mut gm = Gen { rng: Rng::new(g.rng.next()), stats: BTreeMap::new(), thorough: false };
+            // moderate magnitudes so that 2^±60 neither overflows nor underflows the squares
+            let mut mk = |prim: bool| -> Vec<f64> {
+                let v = match cone { "exp" => if prim { gm.exp_primal(m) } else { gm.exp_dual(m) },
+                                     "pow" => if prim { gm.pow_primal(al, m) } else { gm.pow_dual(al, m) },
+                                     _ => gm.gp_point(&als, d2, !prim, m) };
+                v
+            };
+            let (s, z) = (mk(true), mk(false));
+            emit(sink, &mut g, "feas_cov", json!({"cone": cone, "alpha": al, "alphas": als, "s": s, "z": z, "k": k}), "feas-scaled");
+            if rep % 3 == 0 && *k < 0 {
+                let lam = (2.0f64).powi(*k as i32);
+                let (s2, z2): (Vec<f64>, Vec<f64>) = (s.iter().map(|x| x * lam).collect(), z.iter().map(|x| x * lam).collect());
+                let zero = vec![0.0; s.len()];
+                emit(sink, &mut g, "step_full", json!({"cone": cone, "alpha": al, "alphas": als, "s": s2, "z": z2, "ds": zero, "dz": zero, "amax": 1.0}), "step-tiny");
+                emit(sink, &mut g, "step_full", json!({"cone": cone, "alpha": al, "alphas": als, "s": s2, "z": z2, "ds": s2, "dz": z2, "amax": 0.99}), "step-tiny");
+            }
+        }
     }
     // --- dual gradient / Hessian / barrier, third-order correction
     let n_pts = 100 * scale;
